@@ -10,7 +10,8 @@
    MODEL = Model/HttpFlow.v with the HTTP/1 recogniser of Model/HttpRecog.v on the wire image of the
    events; SPEC = Spec/StreamSpec.v with the same recogniser (- when the trace is outside the
    specification's domain, a payload byte is outside 1..127,
-   or more connections are opened than <capacity>); known = Spec known classes. *)
+   or more connections are opened than <capacity>); known = the known-defect classes of
+   Spec/StreamSpec.v (wrap, harmful gap, dup, fin); benign reordering gets a SPEC verdict with known = 0. *)
 From Coq Require Import List NArith Bool.
 From Coq Require Import Strings.Byte.
 From HN Require Import Base.Bytes Base.Cache Base.Tcp Model.HttpFlow Model.HttpRecog Spec.StreamSpec.
